@@ -6,6 +6,37 @@ sys.path.insert(0, os.path.join(os.path.dirname(os.path.dirname(os.path.abspath(
 import pygen_schemas as PS  # noqa: E402
 
 classify = PS.classify
+TA = PS.TA
+
+
+def item_type_of(ty):
+    """Item type of a list class: its usual private attribute, or (after a rename) the type of the items it decodes."""
+    it = getattr(ty, "_item_type", None)
+    if isinstance(it, type):
+        return it
+    c = classify(ty)
+    return TA.item_type(ty, {"lvlist": "lv", "fixlist": "fixed", "greedy": "greedy"}[c[0]], c[1] if c[0] == "lvlist" else None)
+
+
+_partial_name = []
+
+
+def is_partial(cmd):
+    """Whether a command object is a partial one (pattern / cut-short failure response)."""
+    if not _partial_name:
+        import zigpy_zboss.commands as c
+        R = c.NcpConfig.GetModuleVersion.Req
+        a, b = R(partial=True), R(TSN=1)
+        da, db = object.__getattribute__(a, "__dict__"), object.__getattribute__(b, "__dict__")
+        if "_partial" in da:
+            _partial_name.append("_partial")
+        else:
+            cands = [k for k in da if da[k] is True and db.get(k) is False]
+            if len(cands) != 1:
+                raise RuntimeError("cannot tell which attribute marks a partial command (%s)" % cands)
+            _partial_name.append(cands[0])
+            TA.used_behaviour["CommandBase.partial-flag"] = "the one attribute True on a partial command and False on a full one (%s)" % cands[0]
+    return bool(object.__getattribute__(cmd, "__dict__")[_partial_name[0]])
 
 
 def ty_text(c):
@@ -77,7 +108,7 @@ def foreign_items(rng, ty, items, always=False):
     """Items of an integer list given as zigpy integers of ANOTHER width (or as plain ints): legal inputs - the list
     type converts every item to its own item type when it serializes."""
     import zigpy.types as zt
-    c = classify(ty._item_type)
+    c = classify(item_type_of(ty))
     if c[0] != "int" or c[2] or not items or not (always or rng.random() < 0.25):
         return items
     pool = [zt.uint8_t, zt.uint16_t, zt.uint24_t, zt.uint32_t, zt.uint64_t]
@@ -106,13 +137,13 @@ def gen_py(rng, ty, small=False):
     if k == "lvlist":
         mx = min(256 ** c[1] - 1, 6 if small or rng.random() < 0.9 else 300)
         n = rng.choice([0, 1, mx]) if rng.random() < 0.3 else rng.randrange(0, mx + 1)
-        return ty(foreign_items(rng, ty, [gen_py(rng, ty._item_type, True) for _ in range(n)]))
+        return ty(foreign_items(rng, ty, [gen_py(rng, item_type_of(ty), True) for _ in range(n)]))
     if k == "fixlist":
-        return ty(foreign_items(rng, ty, [gen_py(rng, ty._item_type, True) for _ in range(c[1])]))
+        return ty(foreign_items(rng, ty, [gen_py(rng, item_type_of(ty), True) for _ in range(c[1])]))
     if k == "greedy":
         # boundary: the empty list (encodes to zero bytes) is a legal value of a greedy list
         n = rng.choice([0, 0, 1, 2, 5]) if rng.random() < 0.5 else rng.randrange(0, 30 if not small else 5)
-        return ty(foreign_items(rng, ty, [gen_py(rng, ty._item_type, True) for _ in range(n)]))
+        return ty(foreign_items(rng, ty, [gen_py(rng, item_type_of(ty), True) for _ in range(n)]))
     if k == "struct":
         kw = {}
         for f in ty.fields:
@@ -189,7 +220,7 @@ def impl_from_body(cls, body):
         return "R"
     except Exception as e:  # noqa  anything else is not a rejection the callers of from_frame handle
         return "X " + type(e).__name__
-    return ("P " if cmd._partial else "A ") + assignment_text(cls, cmd)
+    return ("P " if is_partial(cmd) else "A ") + assignment_text(cls, cmd)
 
 
 # ----------------------------------------------------------------------------- model text -> Python value
@@ -246,7 +277,7 @@ def from_model(ty, text, signed=None):
         return ty(tree[1])
     if k in ("lvlist", "fixlist", "greedy"):
         item_signed = list(signed) if signed else None
-        return ty([from_model(ty._item_type, x, list(item_signed) if item_signed else None) for x in tree[1]])
+        return ty([from_model(item_type_of(ty), x, list(item_signed) if item_signed else None) for x in tree[1]])
     if k == "struct":
         return ty(**{f.name: from_model(f.type, x, signed) for f, x in zip(ty.fields, tree[1])})
     if k == "simpledesc":
